@@ -91,3 +91,12 @@ Theorem C10_single_item_list_api : forall n item o s s1,
   api_render (S (S (S (S (S (S (S n))))))) (li_line item) o s = Ok ($"<ul><li>" ++ escape item ++ $"</li></ul>", set_listids s1 []).
 Proof. exact single_item_list_api. Qed.
 Print Assumptions C10_single_item_list_api.
+
+(* THE SAME MARKER CONTINUES THE LIST: the two-line document "- a" / "- b" renders to one list with two items -- the second line
+   is recognised by the item loop of the first item as an item whose marker is already open, handed back to the loop over the
+   items of that list, and rendered as its next item; afterwards the marker stack is empty *)
+Theorem C10_two_item_list : forall n item1 item2 s, quiet_default s -> li_item_ok item1 -> li_item_ok item2 ->
+  doc_render (S (S (S (S (S (S (S (S n)))))))) (li_line item1 ++ 10 :: li_line item2) s =
+  Ok ($"<ul><li>" ++ escape item1 ++ $"</li><li>" ++ escape item2 ++ $"</li></ul>", set_listids s []).
+Proof. exact two_item_list_document. Qed.
+Print Assumptions C10_two_item_list.
